@@ -252,3 +252,188 @@ Proof.
   destruct (drain_fuel (S (length data)) (S (length data)) (ist_new start) data) as [[[ms st] rest]|s|];
     [discriminate|discriminate|destruct H].
 Qed.
+
+(* ---------------------------------------------------------------- every yielded message is a parser result on a suffix *)
+Definition from_parse (data : bytes) (m : msg) : Prop :=
+  exists k idx n, parse_storage idx (skipn k data) = PMsg n m \/ parse_serial idx (skipn k data) = PMsg n m.
+
+Lemma on_msg_yield storage st n m n' m' st' : on_msg storage st n m = Ok (AYield n' m' st') -> n' = n /\ m' = m.
+Proof.
+  unfold on_msg. destruct (add_chk u32max (i_index st) 1); cbn [bind]; intros E; inversion E. split; reflexivity.
+Qed.
+
+Lemma storage_half_yield st w n m st' : storage_half false st w = Ok (AYield n m st') -> parse_storage (i_index st) w = PMsg n m.
+Proof.
+  unfold storage_half. destruct (parse_storage (i_index st) w) as [n0 m0| |k].
+  - intros E. apply on_msg_yield in E. destruct E; subst. reflexivity.
+  - destruct (i_det_storage st); discriminate.
+  - destruct (false || i_det_storage st); discriminate.
+Qed.
+Lemma serial_half_yield st w n m st' : serial_half st w = Ok (AYield n m st') -> parse_serial (i_index st) w = PMsg n m.
+Proof.
+  unfold serial_half. destruct (parse_serial (i_index st) w) as [n0 m0| |k]; try discriminate.
+  intros E. apply on_msg_yield in E. destruct E; subst. reflexivity.
+Qed.
+
+Lemma from_parse_skip k data m : from_parse (skipn k data) m -> from_parse data m.
+Proof.
+  intros (j & idx & n & H). exists (k + j)%nat, idx, n. rewrite <- skipn_skipn. exact H.
+Qed.
+
+Lemma next_from_parse : forall fuel st data m st' d',
+  next fuel st data = Ok (Some m, st', d') -> from_parse data m.
+Proof.
+  induction fuel as [|fuel IH]; intros st data m st' d'; [discriminate|].
+  unfold next. rewrite next_S. fold next.
+  assert (Hser : (a2 <- serial_half st data ;;
+                  match a2 with
+                  | AYield n m st' => Ok (Some m, st', skipn (N.to_nat n) data)
+                  | ASkip st' => next fuel st' (skipn 1 data)
+                  | APass => next fuel st data
+                  | AStop => Ok (None, st, data)
+                  end)%res = Ok (Some m, st', d') -> from_parse data m).
+  { destruct (serial_half st data) as [[n m0 st0|st0| |]|s|] eqn:E; cbn [bind]; try discriminate.
+    - intros E2. inversion E2; subst. apply serial_half_yield in E. exists 0%nat, (i_index st), n. right. exact E.
+    - intros E2. apply (from_parse_skip 1). exact (IH _ _ _ _ _ E2).
+    - intros E2. exact (IH _ _ _ _ _ E2). }
+  destruct (i_det_serial st).
+  - cbn [bind]. destruct (i_det_storage st); [intros E; exact (IH _ _ _ _ _ E)|exact Hser].
+  - destruct (storage_half false st data) as [[n m0 st0|st0| |]|s|] eqn:E; cbn [bind]; try discriminate.
+    + intros E2. inversion E2; subst. apply storage_half_yield in E. exists 0%nat, (i_index st), n. left. exact E.
+    + intros E2. apply (from_parse_skip 1). exact (IH _ _ _ _ _ E2).
+    + destruct (i_det_storage st); [intros E2; exact (IH _ _ _ _ _ E2)|exact Hser].
+Qed.
+
+Lemma next_suffix : forall fuel st data o st' d',
+  next fuel st data = Ok (o, st', d') -> exists k, d' = skipn k data.
+Proof.
+  induction fuel as [|fuel IH]; intros st data o st' d'; [discriminate|].
+  unfold next. rewrite next_S. fold next.
+  assert (Hser : (a2 <- serial_half st data ;;
+                  match a2 with
+                  | AYield n m st' => Ok (Some m, st', skipn (N.to_nat n) data)
+                  | ASkip st' => next fuel st' (skipn 1 data)
+                  | APass => next fuel st data
+                  | AStop => Ok (None, st, data)
+                  end)%res = Ok (o, st', d') -> exists k, d' = skipn k data).
+  { destruct (serial_half st data) as [[n m0 st0|st0| |]|s|]; cbn [bind]; try discriminate.
+    - intros E2. inversion E2; subst. eexists; reflexivity.
+    - intros E2. destruct (IH _ _ _ _ _ E2) as [k Hk]. exists (1 + k)%nat. rewrite <- skipn_skipn. exact Hk.
+    - intros E2. exact (IH _ _ _ _ _ E2).
+    - intros E2. inversion E2; subst. exists 0%nat. reflexivity. }
+  destruct (i_det_serial st).
+  - cbn [bind]. destruct (i_det_storage st); [intros E; exact (IH _ _ _ _ _ E)|exact Hser].
+  - destruct (storage_half false st data) as [[n m0 st0|st0| |]|s|]; cbn [bind]; try discriminate.
+    + intros E2. inversion E2; subst. eexists; reflexivity.
+    + intros E2. destruct (IH _ _ _ _ _ E2) as [k Hk]. exists (1 + k)%nat. rewrite <- skipn_skipn. exact Hk.
+    + destruct (i_det_storage st); [intros E2; exact (IH _ _ _ _ _ E2)|exact Hser].
+    + intros E2. inversion E2; subst. exists 0%nat. reflexivity.
+Qed.
+
+Lemma drain_from_parse : forall fuel nfuel st data ms st' rest,
+  drain_fuel fuel nfuel st data = Ok (ms, st', rest) -> Forall (from_parse data) ms.
+Proof.
+  induction fuel as [|fuel IH]; intros nfuel st data ms st' rest; [discriminate|].
+  unfold drain_fuel, drain_l. cbn [drain_gen]. fold (next_l false). fold next. fold (drain_l false). fold drain_fuel.
+  destruct (next nfuel st data) as [[[o st1] d1]|s|] eqn:En; cbn [bind]; try discriminate.
+  destruct o as [m|].
+  - destruct (drain_fuel fuel nfuel st1 d1) as [[[ms2 st2] rest2]|s|] eqn:Ed; cbn [bind]; try discriminate.
+    intros E. inversion E; subst. constructor.
+    + exact (next_from_parse _ _ _ _ _ _ En).
+    + destruct (next_suffix _ _ _ _ _ _ En) as [k Hk]. subst d1.
+      eapply Forall_impl; [|exact (IH _ _ _ _ _ _ Ed)]. intros a. apply from_parse_skip.
+  - intros E. inversion E; subst. constructor.
+Qed.
+
+Theorem run_iter_from_parse start data ms st rest :
+  run_iter start data = Ok (ms, st, rest) -> Forall (from_parse data) ms.
+Proof. unfold run_iter, run_iter_l. fold drain_fuel. apply drain_from_parse. Qed.
+
+(* ---------------------------------------------------------------- numbering of the yielded messages *)
+Lemma parse_after_marker_index hsz pat short sh idx d n m :
+  parse_after_marker hsz pat short sh idx d = PMsg n m -> m_index m = idx.
+Proof.
+  unfold parse_after_marker.
+  destruct (_ <? _); [discriminate|]. destruct (_ <? _); [destruct short; discriminate|].
+  match goal with |- (if ?c then _ else _) = _ -> _ => destruct c end; [discriminate|].
+  intros E. inversion E; subst. reflexivity.
+Qed.
+Lemma parse_storage_index idx d n m : parse_storage idx d = PMsg n m -> m_index m = idx.
+Proof.
+  unfold parse_storage. destruct (_ <? _); [discriminate|]. destruct (storage_from_buf d); [|discriminate].
+  apply parse_after_marker_index.
+Qed.
+Lemma parse_serial_index idx d n m : parse_serial idx d = PMsg n m -> m_index m = idx.
+Proof.
+  unfold parse_serial. destruct (_ <? _); [discriminate|]. destruct (negb _); [discriminate|].
+  apply parse_after_marker_index.
+Qed.
+
+Lemma on_msg_ok storage st n m a : on_msg storage st n m = Ok a -> i_index st + 1 <= u32max.
+Proof.
+  unfold on_msg, add_chk. destruct (N.leb_spec (i_index st + 1) u32max) as [H|H]; [intros _; exact H|discriminate].
+Qed.
+
+Lemma next_yield_index : forall fuel st data m st' d',
+  next fuel st data = Ok (Some m, st', d') -> m_index m = i_index st /\ i_index st + 1 <= u32max.
+Proof.
+  induction fuel as [|fuel IH]; intros st data m st' d'; [discriminate|].
+  unfold next. rewrite next_S. fold next.
+  assert (Hser : (a2 <- serial_half st data ;;
+                  match a2 with
+                  | AYield n m st' => Ok (Some m, st', skipn (N.to_nat n) data)
+                  | ASkip st' => next fuel st' (skipn 1 data)
+                  | APass => next fuel st data
+                  | AStop => Ok (None, st, data)
+                  end)%res = Ok (Some m, st', d') -> m_index m = i_index st /\ i_index st + 1 <= u32max).
+  { destruct (serial_half st data) as [[n m0 st0|st0| |]|s|] eqn:E; cbn [bind]; try discriminate.
+    - intros E2. inversion E2; subst. split.
+      + apply serial_half_yield in E. exact (parse_serial_index _ _ _ _ E).
+      + unfold serial_half in E. destruct (parse_serial (i_index st) data); try discriminate. exact (on_msg_ok _ _ _ _ _ E).
+    - intros E2. pose proof (serial_half_cases st data) as Hc. rewrite E in Hc. destruct Hc as [-> _].
+      exact (IH _ _ _ _ _ E2).
+    - intros E2. exact (IH _ _ _ _ _ E2). }
+  destruct (i_det_serial st).
+  - cbn [bind]. destruct (i_det_storage st); [intros E; exact (IH _ _ _ _ _ E)|exact Hser].
+  - destruct (storage_half false st data) as [[n m0 st0|st0| |]|s|] eqn:E; cbn [bind]; try discriminate.
+    + intros E2. inversion E2; subst. split.
+      * apply storage_half_yield in E. exact (parse_storage_index _ _ _ _ E).
+      * unfold storage_half in E. destruct (parse_storage (i_index st) data);
+          try (destruct (i_det_storage st); discriminate); try (destruct (false || i_det_storage st); discriminate).
+        exact (on_msg_ok _ _ _ _ _ E).
+    + intros E2. pose proof (storage_half_cases st data) as Hc. rewrite E in Hc. destruct Hc as (-> & _ & _).
+      exact (IH _ _ _ _ _ E2).
+    + destruct (i_det_storage st); [intros E2; exact (IH _ _ _ _ _ E2)|exact Hser].
+Qed.
+
+Lemma drain_indices : forall fuel nfuel st data ms st' rest,
+  not_both st -> i_index st <= u32max ->
+  drain_fuel fuel nfuel st data = Ok (ms, st', rest) ->
+  i_index st + N.of_nat (length ms) <= u32max /\
+  map m_index ms = map (fun k => i_index st + N.of_nat k) (seq 0 (length ms)).
+Proof.
+  induction fuel as [|fuel IH]; intros nfuel st data ms st' rest Hnb Hle; [discriminate|].
+  unfold drain_fuel, drain_l. cbn [drain_gen]. fold (next_l false). fold next. fold (drain_l false). fold drain_fuel.
+  pose proof (next_inv nfuel st data Hnb) as Hn. unfold next_post in Hn.
+  destruct (next nfuel st data) as [[[o st1] d1]|s|] eqn:En; cbn [bind]; try discriminate.
+  destruct Hn as (_ & _ & _ & Hnb1 & _ & Ho).
+  destruct o as [m|].
+  - destruct (drain_fuel fuel nfuel st1 d1) as [[[ms2 st2] rest2]|s|] eqn:Ed; cbn [bind]; try discriminate.
+    intros E. inversion E; subst. destruct Ho as [Hi _].
+    destruct (next_yield_index _ _ _ _ _ _ En) as [Hm Hb].
+    destruct (IH _ _ _ _ _ _ Hnb1 ltac:(lia) Ed) as [Hb2 Hmap].
+    split; [cbn [length]; lia|].
+    cbn [length seq map]. f_equal; [lia|].
+    rewrite Hmap. rewrite <- seq_shift, map_map. apply map_ext. intros k. lia.
+  - intros E. inversion E; subst. cbn. split; [lia|reflexivity].
+Qed.
+
+Theorem run_iter_indices start data ms st rest :
+  start <= u32max ->
+  run_iter start data = Ok (ms, st, rest) ->
+  start + N.of_nat (length ms) <= u32max /\
+  map m_index ms = map (fun k => start + N.of_nat k) (seq 0 (length ms)).
+Proof.
+  unfold run_iter, run_iter_l. fold drain_fuel. intros Hs H.
+  exact (drain_indices _ _ (ist_new start) data ms st rest eq_refl Hs H).
+Qed.
